@@ -464,7 +464,46 @@ def rloop_client_tasks_keep_polling(ctx):
     client_loops_suspend_only_where_vetted(ctx, "C09.LOOP")
 
 
-RULES = [r10_front_end_hand_over_reports_a_dead_back_end, rloop_client_tasks_keep_polling, rbuilder_client_settings_survive, rpure_refused_insert_changes_nothing, rsel_shutdown_is_a_select_branch, r9_taken_callers_are_answered, r1_cause_before_close, r2_no_unchecked_arith_on_peer_numbers, r3_errors_reach_watcher, r4_frontend_mapping, r5_read_error, r6_no_relock, r7_manager_not_cleared_wholesale, r8_no_panicky_text_surgery, rcancel_receive_is_cancel_safe]
+# explicit panic sites (expect / unwrap / unreachable! / panic! / assert!) in the code the two background tasks run, as
+# counted on the pinned tree; each was read: they state invariants of the client's own tables that no server message can
+# falsify (R6/C05.R6 guard the ones that could), a poisoned-mutex expect, and the `expect`s of infallible serialisation
+_BG_SCOPE = r"^jsonrpsee_core::client::async_client::(read_task|send_task|handle_backend_messages|handle_frontend_messages|wait_for_shutdown|unparse_error|helpers::|manager::|utils::|ThreadSafeRequestManager::|ErrorFromBack::)|^<jsonrpsee_client_transport::ws::(Sender|Receiver)<T> as "
+_BG_PANICS = {"expect/unwrap": 6, "unreachable!/panic!": 4, "assert!": 0}
+
+
+def r11_background_tasks_gain_no_panic_sites(ctx):
+    """`no background task panics, for any bytes the server may send`: the explicit panic sites of the code the read and
+    send tasks execute are an inventory that was read site by site; a new `expect` / `unreachable!` there is a new way for
+    a server message (a reply on an id the client reserved, a text frame that is not UTF-8) to kill a task - which is
+    reported to nobody: pending calls wait for their timeout, on_disconnect never resolves"""
+    F, R = ctx.F, ctx.R
+    got = {k: [] for k in _BG_PANICS}
+    for b in F.real_bodies():
+        if is_test_body(b):
+            continue
+        root = F.root_fn(b)
+        if not re.search(_BG_SCOPE, root.path):
+            continue
+        R.fn(b)
+        for c in b.calls:
+            nm = c.name() or ""
+            exp = c.exp or ""
+            if re.search(r"(Option|Result)::<.*>::(unwrap|expect|unwrap_err|expect_err)$", nm):
+                got["expect/unwrap"].append(c)
+            elif re.search(r"^(core|std)::panicking::(panic_fmt|panic|panic_display|panic_explicit|unreachable_display)$|begin_panic", nm):
+                if "tokio::select" in exp or "$crate::select" in exp:
+                    continue  # select!'s own "all branches disabled" arms
+                if "m:assert" in exp or "m:debug_assert" in exp:
+                    got["assert!"].append(c)
+                else:
+                    got["unreachable!/panic!"].append(c)
+    for kind, allowed in _BG_PANICS.items():
+        sites = got[kind]
+        R.check(len(sites) <= allowed, "C09.R11", "panic-sites:%s" % kind, "%d %s sites in the background tasks' code (inventory: %d)" % (len(sites), kind, allowed), "the code run by the client's background tasks has %d %s sites, the inventory that was read has %d: a new one is a new way for the read / send task to die without reporting anything (sites: %s)" % (len(sites), kind, allowed, sorted({"%s@%s" % (short(F.root_fn(c.body).path), where(c)) for c in sites})), where(sites[-1]) if sites else None)
+    R.floor("C09.R11", sum(len(v) for v in got.values()), 8, "explicit panic sites inventoried")
+
+
+RULES = [r11_background_tasks_gain_no_panic_sites, r10_front_end_hand_over_reports_a_dead_back_end, rloop_client_tasks_keep_polling, rbuilder_client_settings_survive, rpure_refused_insert_changes_nothing, rsel_shutdown_is_a_select_branch, r9_taken_callers_are_answered, r1_cause_before_close, r2_no_unchecked_arith_on_peer_numbers, r3_errors_reach_watcher, r4_frontend_mapping, r5_read_error, r6_no_relock, r7_manager_not_cleared_wholesale, r8_no_panicky_text_surgery, rcancel_receive_is_cancel_safe]
 
 LEVEL_TEXT = (
     "Structural necessary conditions of clean failure handling decided from the type-checked program: the happens-before "
